@@ -112,12 +112,34 @@ def Dur.newLegacy (seconds nanoseconds : Int) : Res Dur :=
     else if seconds < 0 && nanoseconds > 0 then .ok ⟨seconds + 1, nanoseconds - NANOS_PER_SEC⟩
     else .ok ⟨seconds, nanoseconds⟩
 
-/-- `std_conv.rs::duration_from_parts` (the repaired code):
+/-- `duration_from_parts` as it was between the repairs of F3 and F12:
 `Duration::seconds(seconds).checked_add(Duration::nanoseconds(nanos.into())).context("duration overflow")` -/
-def durationFromParts (seconds nanos : Int) : Res Dur :=
+def durationFromPartsPre12 (seconds nanos : Int) : Res Dur :=
   match (Dur.seconds seconds).checkedAdd (Dur.nanoseconds nanos) with
   | some d => .ok d
   | none => .err "duration overflow"
+
+/-- `std_conv.rs::duration_from_parts`, **current** code: the checked addition, then
+`ensure!(d.whole_seconds() > i64::MIN || d.subsec_nanoseconds() >= 0, "duration overflow")` (repair of F12) -/
+def durationFromParts (seconds nanos : Int) : Res Dur :=
+  match durationFromPartsPre12 seconds nanos with
+  | .ok d => if d.secs > I64_MIN ∨ d.nanos ≥ 0 then .ok d else .err "duration overflow"
+  | .err w => .err w
+  | .panic p => .panic p
+
+/-- `impl ProtoFmt for time::Duration :: build` with overflow checks (dev / test profile): for a negative sub-second part
+`seconds -= 1; nanos += 1_000_000_000` -/
+def durationBuild (d : Dur) : Res (Int × Int) :=
+  if d.nanos < 0 then
+    (if inI64 (d.secs - 1) then .ok (d.secs - 1, d.nanos + 1000000000)
+     else .panic "std_conv.rs: attempt to subtract with overflow (Duration::build)")
+  else .ok (d.secs, d.nanos)
+
+/-- the same in the shipping profile: `seconds -= 1` wraps -/
+def durationBuildWrap (d : Dur) : Int × Int :=
+  if d.nanos < 0 then
+    (if inI64 (d.secs - 1) then (d.secs - 1, d.nanos + 1000000000) else (d.secs - 1 + 18446744073709551616, d.nanos + 1000000000))
+  else (d.secs, d.nanos)
 
 /-- `proto::std::Timestamp` / `proto::std::Duration` at the proto-struct level -/
 structure PDur where
